@@ -74,6 +74,7 @@ def run_one(ctx, mode, cfg, tag):
     res["div"] = div
     res["lines"] = n
     res["sample"] = [x for x in c if x.split()[0] in ("rb", "fwd", "fdone", "antil", "finilp")][:3]
+    res["finals"] = sorted(x.split(" seq=")[0] for x in c if x.startswith("finilp"))
     for f in (ops, cf, lf):
         try:
             os.remove(f)
